@@ -118,7 +118,7 @@ CHECKS = {
                        "XML declaration, extra attributes, session-id over the full 32-bit range or absent, or no hello at all), generated read "
                        "segmentation, echoing or not. Oracle = the table written from the statement + exact capability list and session-id + "
                        "strict parse of the client's hello + strict framing check of the first RPC in the selected and not the other framing."),
-        "level_note": ("Trusted: sim.NCServer / HelloSpec renderer, encoding/xml, sim.DecodeChunkedPrefix. Capabilities contain no '&' or whitespace."
+        "level_note": ("Trusted: sim.NCServer / HelloSpec renderer, encoding/xml, sim.DecodeChunkedPrefix. Capabilities contain no '&' and no inner whitespace (white space around the uri is generated)."
                        ' Prefixes [a-z][a-z0-9_]{0,4}; 0-70 extra capabilities; the missing hello is plain garbage or another message that quotes capability elements.'),
         "technique": "property-based testing (rapid) over an exhaustive 12-cell configuration table x generated hellos, table oracle + wire checks",
         "rule": ("cell (0..11) x generated hello x cut plan x echo x read size. Non-trivial: prefixed element names, or >= 4 capabilities, or a "
@@ -162,7 +162,8 @@ CHECKS = {
         "level_note": ("Trusted: testing/synctest leak and deadlock detection, the Go race detector, sim.Pipe. Orders are forced only at the "
                        "instrumented points; between two points the Go scheduler decides. For the 'stays blocked' transport the harness "
                        "releases the parked read after Close returned and then requires the library to unwind completely."
-                       ' Sessions may be preceded by complete open/operation/close rounds on the same driver (generic, network), drivers may carry an on-close function that sends a command, NETCONF operations may be subscription rpcs with pushed notifications. Close bound: the pinned grace formula + 10 s of virtual time.'),
+                       ' Sessions may be preceded by complete open/operation/close rounds on the same driver (generic, network), drivers may carry an on-close function that sends a command, NETCONF operations may be subscription rpcs with pushed notifications. Close bound: the pinned grace formula + 10 s of virtual time.'
+                       ' Second review: states "Close right after Open" (no operation, no quiesce) and "an operation (command or interactive send) ran into its timeout before the close"; re-open rounds without an operation; on the wall clock also transports whose parked read stays parked over the next session of the same driver; NETCONF 1.0 drivers are re-opened too (virtual clock only). A child that hangs inside the bubble is re-run on the wall clock and only counts if it fails there as well (a goroutine waiting on a sync.Mutex is not durably blocked for synctest and stops the bubble\'s clock); otherwise the case is infeasible. Sub-check rpc-late-reply: NETCONF rpcs whose reply and deadline are both at hand when the caller waits (verif hook nrpc.pre_select), then Close, with leak accounting.'),
         "technique": "property-based testing (rapid) of generated states x forced hook orderings, child-process isolation, virtual-time bounds, runtime leak detection, -race",
         "rule": ("driver x state x close behaviour x read delay x skew x 0-3 ordering constraints (thorough: all ordered cross-role pairs enumerated). "
                  "Non-trivial: any state other than idle, or a feasible ordering constraint, or a second Close. Distinct = sha1(case)."),
@@ -388,15 +389,16 @@ CHECKS = {
                        "device is then made silent after byte k; k is drawn (with boundary weight) in the rapid sub-check and enumerated "
                        "for every k of fixed exchanges x 3 segmentations x 2 timeout settings in the all-k sub-check (thorough: every k; "
                        "quick: every 19th). Oracle on the virtual clock: the call returns an error of the timeout class (privilege class "
-                       "for the implicit privilege change), never success with fewer than the needed bytes, not before the timeout in "
-                       "force (per-operation over connection-wide precedence) and not later than it plus 4 read delays + 1 ms measured "
+                       "for the implicit privilege change), never success with fewer than the needed bytes, not before 90 % of the timeout in "
+                       "force (per-operation over connection-wide precedence; coarse on purpose) and not later than it plus 5 % measured "
                        "from the instant the device went quiet; per-operation 0 keeps waiting 10x the connection-wide value and then "
                        "succeeds when the device catches up; recovery clause: after a stall that began once the command's return was "
                        "sent, the device catches up and the next command returns its own result. SendWithCallbacks and ReadDelay 0 run "
                        "in a real-time sub-check with one-sided bounds."),
         "level_note": ("Trusted: device models, dry-run length measurement (deterministic in virtual time), testing/synctest. For multi-step "
                        "operations only the upper bound (max of the applicable timeouts) is asserted because every step arms its own timer."
-                       ' Operations also: the way down (configuration to exec), Open with an on-open function, every exported RPC method (incl. the subscription rpc) for the NETCONF call without per-operation timeout; operation options exact matching and interim prompt pattern; after a timed-out interactive send nothing more may be typed when the device catches up; slack = 5 % of the timeout in force; callback sends are also bounded above (wall clock, three confirmations).'),
+                       ' Operations also: the way down (configuration to exec), Open with an on-open function, every exported RPC method (incl. the subscription rpc) for the NETCONF call without per-operation timeout; operation options exact matching and interim prompt pattern; after a timed-out interactive send nothing more may be typed when the device catches up; slack = 5 % of the timeout in force; callback sends are also bounded above (wall clock, three confirmations).'
+                       ' Second review: per-operation timeouts for every rpc method that takes options (Commit, GetConfig, RPC enumerated in all-k), interactive sends through the network driver, network on-open function; for multi-step operations the per-operation timeout is judged once the device has received the last step\'s input line; lower bounds are 90 % of the timeout in force counted from the start of the send; sub-check callbacks-reader-rt holds the reading goroutine of a callback send across the deadline (verif hook cop.read_enter), lets the device catch up, runs the next command and searches the goroutine dump for what the send left behind.'),
         "technique": "fault enumeration of stall points driven by rapid and exhaustive k loops; virtual-time bounds; recovery clause; real-time sub-tier for spinning code",
         "rule": ("stall: op x timeout mode x k (per-mille of the measured exchange) x cut plan x read size; all-k: op x mode x plan x every k. "
                  "Non-trivial: 0 < k < L, or a per-operation override. Distinct = sha1(case)."),
@@ -416,12 +418,12 @@ CHECKS = {
                        "two open/login flavours) with the transport reporting end-of-stream, a persistent non-EOF read error or a write "
                        "error after byte k of the measured exchange (k drawn, and every k enumerated for fixed exchanges in thorough / "
                        "every 23rd in quick), or while idle; 1-2 further operations afterwards, then Close. Every case runs in a child "
-                       "process inside a synctest bubble: the in-flight call must return an error within 50 read delays + 10 ms of the "
-                       "loss (far below its timeout), must not report success unless every needed byte had been delivered (then with the "
+                       "process inside a synctest bubble: the in-flight call must return an error within a fifth of the timeout in force after the "
+                       "loss (promptly, not at its timeout), must not report success unless every needed byte had been delivered (then with the "
                        "full result), every later call must fail, and the child must exit cleanly (a panic in any goroutine kills it)."),
         "level_note": ("Trusted: device models, dry-run measurement, child-process exit status as the no-panic oracle, testing/synctest."
                        ' Idle losses are generated with and without unread bytes (an unsolicited message plus a redrawn prompt) sitting in the queue when the loss is noticed.'
-                       ' Read errors are real error values (EIO, ECONNRESET, deadline exceeded, unexpected EOF, closed pipe, bare and wrapped); Open with an on-open function; callback sends that lose the connection (wall clock, three confirmations).'),
+                       ' Read errors are real error values (EIO, ECONNRESET, unexpected EOF, closed pipe, bare and wrapped; a deadline error is not a loss and is not injected); Open with an on-open function (generic and network); callback sends that lose the connection, also through a failing write inside a callback (wall clock, three confirmations); after the loss the channel\'s exported Read / ReadAll must report an error too once what was buffered has been handed out.'),
         "technique": "fault enumeration of loss points x loss kinds driven by rapid and exhaustive k loops; child-process isolation; virtual-time promptness bound",
         "rule": ("loss: op x kind x k x idle x further ops x cut plan; loss-all-k: op x kind x plan x every k. Non-trivial: 0 < k < L, or a "
                  "non-EOF kind, or NETCONF, or idle. Distinct = sha1(case)."),
@@ -485,3 +487,27 @@ CHECKS = {
         ],
     },
 }
+
+
+# What the second adversarial review added to the generators / oracles (DESIGN.md section 18), appended to the level notes.
+_SECOND_REVIEW = {
+    "C01": "output lines may hold bytes that are neither text nor part of an escape sequence (invalid UTF-8, NUL, BEL, BS, FF, DEL); one pause of seconds of the device per case; CSI sequences over the whole range of final bytes and 8-bit CSI.",
+    "C02": "error elements in front of or behind a 10 kB pad; enumerated frames of thousands of 1-16 byte chunks; replies of 0.3-2 MB through the driver; prefixed rpc-error, single-quoted message-id.",
+    "C03": "xpath literals with runs of blanks; edit-config payloads of hundreds of kilobytes.",
+    "C04": "an unknown explicit level through every operation that takes one; three escalate-prompt spellings per authenticated edge; a rule that closes and re-opens the driver.",
+    "C08": "a subscribe operation with four reply shapes (result and id, bare ok, no id, error result): anything but the well-formed one may also end in an error, never in a panic; reply bodies quoting message-id attributes of other messages.",
+    "C09": "attribute order and quoting in the hello's start tag; comment, ssh-client or banner lines in front of the hello; white space inside capability and session-id elements.",
+    "C10": "write faults at a drawn write (every failed open closes the transport); configured user name / password / passphrase patterns with device spellings the defaults do not match; the outcome of an undisturbed dialogue is computed from the script.",
+    "C11": "private keys with passphrases over the built-in transports (right / wrong passphrase, a file that is no key, the system transport); user-driven interactive sends with a hidden input through the network and the generic driver.",
+    "C12": "device think times of seconds; commands of kilobytes.",
+    "C13": "from-file lines over 64 KiB and remark lines; lists of 9-14 failing commands; a second send on the same driver with its own (or no) operation-level list.",
+    "C14": "IPv6 loopback; host given by name; known-hosts file gone at connect time; re-open of the same driver after the file changed; passphrase protected keys.",
+    "C15": "one think time of the peer of a tenth or a thirty-second of the socket timeout per case.",
+    "C16": "crypto/ssh sessions with a 1 s socket timeout and a 1.3 s think time of the peer; a sync marker arriving without its first byte is a failure for every flavour.",
+    "C17": "variants are judged through the driver they yield (failure strings, levels, default level, what open and close write), not only through the merged struct.",
+    "C18": "callbacks without a function; trigger / not-contains texts with outer blanks; a not-contains text early in the dialogue; callbacks that keep the output and are neither once nor complete are made once (known finding keep-output-reruns-forever); no timing demand.",
+    "C19": "the caller's option array beyond the list handed to a constructor stays untouched; invalid transport types named by a definition; exported state no option names (SelectedVersion, CurrentPriv).",
+    "C20": "chunks of 4 KB - 200 KB and any byte value including NUL in the sequential model check.",
+}
+for _k, _v in _SECOND_REVIEW.items():
+    CHECKS[_k]["level_note"] += " Second review: " + _v
